@@ -176,6 +176,49 @@ func wrappers() []wrapper {
 	w = append(w, wrapper{"url.Error", func(tk tokens, in error) (error, []secret) {
 		return &url.Error{Op: "Post", URL: "https://" + tk.host2 + "/meek/", Err: in}, []secret{{tk.host2, "url.Error.URL"}}
 	}})
+	// the other texts a url.Error carries in practice: what the user configured
+	// (a front, a bridge or a proxy given as host:port instead of a URL, with
+	// credentials, as an address literal), what url.Parse rejected, what a
+	// redirect pointed to
+	for fi, f := range []struct {
+		op  string
+		url func(tk tokens) (string, []secret)
+	}{
+		{"Get", func(tk tokens) (string, []secret) { return tk.host2 + ":443", []secret{{tk.host2, "url.Error.URL"}} }},
+		{"Post", func(tk tokens) (string, []secret) {
+			return tk.host2 + ":443/meek/", []secret{{tk.host2, "url.Error.URL"}}
+		}},
+		{"Post", func(tk tokens) (string, []secret) {
+			return "https://" + tk.host2 + ":8443/?h=" + tk.host3, []secret{{tk.host2, "url.Error.URL"}, {tk.host3, "url.Error.URL(query)"}}
+		}},
+		{"Get", func(tk tokens) (string, []secret) {
+			return "http://" + tk.v4 + ":8080/", []secret{{tk.v4, "url.Error.URL"}}
+		}},
+		{"Get", func(tk tokens) (string, []secret) {
+			return "http://[" + tk.v6 + "]:8080/x", []secret{{tk.v6, "url.Error.URL"}}
+		}},
+		{"parse", func(tk tokens) (string, []secret) {
+			return "socks5://user:pw@" + tk.host2 + ":1080", []secret{{tk.host2, "url.Error.URL"}}
+		}},
+		{"parse", func(tk tokens) (string, []secret) {
+			return tk.v4 + ":1080", []secret{{tk.v4, "url.Error.URL"}}
+		}},
+		{"Head", func(tk tokens) (string, []secret) {
+			return "//" + tk.host2 + "/", []secret{{tk.host2, "url.Error.URL"}}
+		}},
+		{"Get", func(tk tokens) (string, []secret) {
+			return tk.host2 + "+" + tk.host3 + ":opaque", []secret{{tk.host2, "url.Error.URL"}, {tk.host3, "url.Error.URL"}}
+		}},
+		{"Post", func(tk tokens) (string, []secret) {
+			return "https://" + tk.host2 + "#" + tk.host3, []secret{{tk.host2, "url.Error.URL"}, {tk.host3, "url.Error.URL(fragment)"}}
+		}},
+	} {
+		f := f
+		w = append(w, wrapper{fmt.Sprintf("url.Error(form%d)", fi), func(tk tokens, in error) (error, []secret) {
+			u, sec := f.url(tk)
+			return &url.Error{Op: f.op, URL: u, Err: in}, sec
+		}})
+	}
 	w = append(w, wrapper{"fmt.Errorf", func(tk tokens, in error) (error, []secret) {
 		return fmt.Errorf("outgoing connection failed: %w", in), nil
 	}})
